@@ -1,6 +1,6 @@
 SPECIFICATION Spec
 CONSTANTS
-  MaxLen = 7
+  MaxLen = 6
   MaxDepth = 3
   Fuel = 80
   Alphabet = {"O", "C", "G", "L", "P"}
